@@ -944,7 +944,13 @@ pub fn limit_configs() -> Vec<(Option<usize>, Option<usize>)> {
 pub fn run_filtered(ctx: &mut Ctx, filter: &'static str) {
     let depth = ctx.tier.pick(5, 7);
     let ex = Explorer { max_depth: depth, max_states: 3_000_000, recheck_every: 13, ..Default::default() };
-    for (max_in, max_out) in limit_configs() {
+    let mut configs = limit_configs();
+    if filter == "c06" {
+        // one-sided configurations: a limit on one direction must not be charged for the other direction
+        configs.push((None, Some(1)));
+        configs.push((Some(1), None));
+    }
+    for (max_in, max_out) in configs {
         let known: BTreeSet<String> = crate::report::load_known_findings()
             .into_iter()
             .filter(|k| k.property.eq_ignore_ascii_case(filter))
